@@ -164,6 +164,11 @@ func (t *ncTarget) Sync(ctx context.Context, syncConfig *config.Sync, syncCh cha
 		log.Debugf("target %s, starting sync: %s, Interval: %s, Paths: [ \"%s\" ]", t.name, ncc.Name, ncc.Interval.String(), strings.Join(ncc.Paths, "\", \""))
 		go func(ncSync *config.SyncProtocol) {
 			t.internalSync(ctx, ncSync, true, syncCh)
+			if ncSync.Interval <= 0 {
+				// e.g. an entry meant for another protocol (a gNMI on-change subscription): a ticker needs a positive interval
+				log.Warnf("target %s, sync %s has no interval: synced once", t.name, ncSync.Name)
+				return
+			}
 			ticker := time.NewTicker(ncSync.Interval)
 			defer ticker.Stop()
 			for {
